@@ -135,6 +135,10 @@ pub fn engine_auth(cases: Vec<Value>, out: &mut NdjsonOut) {
             }
             "dead_partial" => std::fs::write(&lockf, "{\"pid\":").unwrap(),
             "dead_meta" => std::fs::write(&metaf, met(dead, 1, "http://127.0.0.1:9")).unwrap(),
+            "dead_partial_meta" => {
+                std::fs::write(&lockf, "{\"pid\":").unwrap();
+                std::fs::write(&metaf, met(dead, 1, "http://127.0.0.1:9")).unwrap();
+            }
             "live_serving" => {
                 std::fs::write(&lockf, rec(me, 7)).unwrap();
                 std::fs::write(&metaf, met(me, 7, &res_ep)).unwrap();
